@@ -106,6 +106,35 @@ theorem arun_proj_some {QT : Type} (h : List (QT × AlgoOpt)) :
   | nil => intro s p hp; exact hp
   | cons c h ih => intro s p hp; exact ih _ p (setConstraint_proj_some s c p hp)
 
+/-! ## interleavings -/
+
+theorem crun_fst_foldl {T : Type} (tbl : Key → T) (ops : List COp) :
+    ∀ s : Cache T, (crun tbl s ops).1 = ops.foldl (fun s op => (cstep tbl s op).1) s := by
+  induction ops with
+  | nil => intro s; rfl
+  | cons op ops ih => intro s; simp [crun, ih]
+
+theorem arunAtol_fst_foldl (ops : List AOp) :
+    ∀ a : Rat, (arunAtol a ops).1 = ops.foldl (fun a op => (astep a op).1) a := by
+  induction ops with
+  | nil => intro a; rfl
+  | cons op ops ih => intro a; simp [arunAtol, ih]
+
+theorem prun_components {T A Q W QT : Type} (tbl : Key → T) (h : List (POp A Q W QT)) :
+    ∀ s : Pool T A Q W QT,
+      (prun tbl s h).cache = (crun tbl s.cache (h.filterMap POp.cache?)).1 ∧
+      (prun tbl s h).loss = lrun s.loss (h.filterMap POp.loss?) ∧
+      (prun tbl s h).algo = arun s.algo (h.filterMap POp.algo?) ∧
+      (prun tbl s h).atol = (arunAtol s.atol (h.filterMap POp.atol?)).1 := by
+  induction h with
+  | nil => intro s; simp [prun, crun, lrun, arun, arunAtol]
+  | cons op h ih =>
+      intro s
+      have := ih (pstep tbl s op)
+      simp only [prun, List.foldl_cons] at this ⊢
+      cases op <;>
+        simp_all [pstep, POp.cache?, POp.loss?, POp.algo?, POp.atol?, crun, lrun, arun, arunAtol, List.filterMap_cons]
+
 /-! ## (d) atol -/
 
 theorem arunAtol_append (a : Rat) (x y : List AOp) :
